@@ -73,6 +73,15 @@ def names_st(draw, k, prefix=""):
     return out
 
 
+def datetime_resolution(evalue):
+    """resolution of an enum datetime value as the generator spells it."""
+    return {4: "Y", 7: "M", 10: "D"}[len(evalue)]
+
+
+DATETIME_IN = {"Y": "%Y", "M": "%Y-%m", "D": "%Y-%m-%d"}
+DATETIME_OUT = {"Y": "%Y", "M": "%b %Y", "D": "%d %b %Y"}
+
+
 @st.composite
 def categories_st(draw, min_valid=1, max_valid=5, max_missing=2, flavour="cat",
                   numeric="some"):
@@ -85,6 +94,8 @@ def categories_st(draw, min_valid=1, max_valid=5, max_missing=2, flavour="cat",
                                  unique=True)) if nm else []
         cats = []
         vi = 0
+        # datetime resolution: monthly, yearly (bare-year values look like numbers) or daily
+        res = draw(st.sampled_from(["M", "M", "Y", "D"])) if flavour == "datetime" else None
         for pos in range(total):
             missing = pos in miss_pos
             if missing:
@@ -93,7 +104,9 @@ def categories_st(draw, min_valid=1, max_valid=5, max_missing=2, flavour="cat",
                              "evalue": {"?": -1}})
                 continue
             if flavour == "datetime":
-                ev = "20%02d-%02d" % (10 + vi // 12, 1 + vi % 12)
+                ev = {"M": "20%02d-%02d" % (10 + vi // 12, 1 + vi % 12),
+                      "Y": "%d" % (2010 + vi),
+                      "D": "2010-01-%02d" % (1 + vi)}[res]
             elif flavour == "text":
                 ev = "t%d" % vi
             else:
